@@ -22,17 +22,23 @@ mod signature;
 mod sub_attributes;
 mod token_util;
 mod trait_codegen;
+#[cfg(audunhalland_entrait_verif)]
+mod verif_hook;
 
 use input::Input;
 use opt::Opts;
 
 #[proc_macro_attribute]
 pub fn entrait(attr: TokenStream, input: TokenStream) -> TokenStream {
+    #[cfg(audunhalland_entrait_verif)]
+    verif_hook::set_variant("entrait");
     invoke(attr, input, |_| {})
 }
 
 #[proc_macro_attribute]
 pub fn entrait_export(attr: TokenStream, input: TokenStream) -> TokenStream {
+    #[cfg(audunhalland_entrait_verif)]
+    verif_hook::set_variant("entrait_export");
     invoke(attr, input, |opts| {
         set_fallbacks([&mut opts.export]);
     })
@@ -40,6 +46,8 @@ pub fn entrait_export(attr: TokenStream, input: TokenStream) -> TokenStream {
 
 #[proc_macro_attribute]
 pub fn entrait_unimock(attr: TokenStream, input: TokenStream) -> TokenStream {
+    #[cfg(audunhalland_entrait_verif)]
+    verif_hook::set_variant("entrait_unimock");
     invoke(attr, input, |opts| {
         set_fallbacks([&mut opts.unimock]);
     })
@@ -47,6 +55,8 @@ pub fn entrait_unimock(attr: TokenStream, input: TokenStream) -> TokenStream {
 
 #[proc_macro_attribute]
 pub fn entrait_export_unimock(attr: TokenStream, input: TokenStream) -> TokenStream {
+    #[cfg(audunhalland_entrait_verif)]
+    verif_hook::set_variant("entrait_export_unimock");
     invoke(attr, input, |opts| {
         set_fallbacks([&mut opts.export, &mut opts.unimock]);
     })
@@ -63,6 +73,12 @@ fn invoke(
     input: proc_macro::TokenStream,
     opts_modifier: impl FnOnce(&mut Opts),
 ) -> proc_macro::TokenStream {
+    #[cfg(audunhalland_entrait_verif)]
+    if verif_hook::should_record() {
+        return verif_hook::record(attr, input, move |attr, input| {
+            invoke(attr, input, opts_modifier)
+        });
+    }
     let input = syn::parse_macro_input!(input as Input);
 
     let (result, debug) = match input {
